@@ -117,6 +117,10 @@ class Lib:
 
     def getitem(self, ex, v, idx):
         from .exec import _ObjDict
+        if isinstance(v, JoinList):
+            if isinstance(idx, int) and v.head is not None and 0 <= idx < len(v.head):
+                return v.head[idx]
+            raise OutOfReach("subscript of an abstract list of byte strings")
         if isinstance(idx, SliceObj):
             return self.getslice(ex, v, idx.lo, idx.hi, idx.step)
         if isinstance(v, _ObjDict):
@@ -313,6 +317,15 @@ class Lib:
         raise OutOfReach(f"del on {v!r}")
 
     def inplace(self, ex, op, cur, val):
+        if isinstance(cur, JoinList) and op == "+":
+            # list += iterable: a bytes-like iterable contributes its *ints*
+            if is_byteslike(val):
+                if ex.fork(ops.b_len(lift_bytes(val)) > 0, "list += non-empty bytes"):
+                    cur.bad = "list element is an int (list += bytes extends with ints)"
+                return cur
+            for it in ex.iterate_concrete(val):
+                _jl_append(ex, cur, it)
+            return cur
         if isinstance(cur, PList) and op == "+":
             # list += iterable extends in place with the iterable's elements
             cur.items.extend(ex.iterate_concrete(val))
@@ -1318,10 +1331,12 @@ class JoinList:
     def __init__(self, t=None):
         self.t = t if t is not None else lift_bytes(b"")
         self.bad = None
+        self.head = []        # the first elements, as long as they are known
 
     def snapshot(self):
         j = JoinList(self.t)
         j.bad = self.bad
+        j.head = list(self.head)
         return j
 
 
@@ -1330,6 +1345,11 @@ def _jl_append(ex, j, v):
     if not is_byteslike(v):
         j.bad = "list element is not bytes-like"
         return
+    if j.head is not None and z3.is_int_value(z3.simplify(ops.b_len(j.t))) and \
+            z3.simplify(ops.b_len(j.t)).as_long() == 0 and not j.head:
+        j.head = [v]
+    elif j.head is not None and len(j.head) < 4 and getattr(j, "_complete", True):
+        j.head.append(v)
     j.t = ops.bconcat_t(j.t, lift_bytes(v))
 
 
